@@ -20,7 +20,8 @@ LEVEL = "model_checking"
 RULE = ("a history is non-trivial when it overwrites a name/chunk, or attempts a no-overwrite store on "
         "an existing target, or is read under a configuration different from the writer's with >= 2 "
         "stored targets; distinct = distinct (writer cfg, op sequence) tuples; confinement probes: "
-        "distinct (accessor, op, name spelling)")
+        "distinct (accessor, op, name spelling); dispatch life-cycle histories (Dispatch.tla): non-trivial "
+        "when they contain a store, distinct = distinct operation sequences")
 
 MIMES = ["application/octet-stream", "application/json", "image/jpeg"]
 
